@@ -41,6 +41,7 @@ func c03CLI(c *Ctx) {
 	}
 	okPath := filepath.Join(dir, "ok.ged")
 	ioutil.WriteFile(okPath, []byte(ok), 0o644)
+	hangs := 0 // a run that does not end costs a minute: three are enough to report
 	for i, f := range files {
 		path := filepath.Join(dir, fmt.Sprintf("f%d.ged", i))
 		ioutil.WriteFile(path, []byte(f.text), 0o644)
@@ -50,10 +51,14 @@ func c03CLI(c *Ctx) {
 			if wantClass == "panic" {
 				wantClass = want // "panic indentTooLarge"
 			}
-			for side := 0; side < 2; side++ {
+			for side := 0; side < 3 && hangs < 3; side++ {
 				args := []string{"diff", "-left-gedcom", path, "-right-gedcom", okPath}
 				if side == 1 {
 					args = []string{"diff", "-left-gedcom", okPath, "-right-gedcom", path}
+				}
+				if side == 2 {
+					// the same file on both sides: both loads fail (or both succeed)
+					args = []string{"diff", "-left-gedcom", path, "-right-gedcom", path}
 				}
 				args = append(args, "-output", filepath.Join(dir, "out.html"))
 				if o[0] {
@@ -74,6 +79,7 @@ func c03CLI(c *Ctx) {
 				switch {
 				case timedOut:
 					got = "hang"
+					hangs++
 				case strings.Contains(text, "indent is too large"):
 					got = "panic indentTooLarge"
 				case strings.Contains(text, "panic:") || strings.Contains(text, "fatal error:"):
